@@ -16,9 +16,11 @@ P = "_ZoneYearOffset__"
 
 
 def _setup(eng):
-    from specs import cal_abs
+    # modular: LocalDate.plus_days through the day field's contract (exact day arithmetic, proved in c09_date_fields.py)
+    from specs import cal_abs, field_models
 
     cal_abs.install(eng)
+    field_models.install(eng)
 
 
 def YearOffsetG():
@@ -31,8 +33,9 @@ def YearOffsetG():
             P + "day_of_month": Int(-31, 31),
             P + "day_of_week": Int(0, 7),
             P + "month_of_year": Int(1, 12),
-            P + "add_day": Bool(),
-            P + "advance_day_of_week": Bool(),
+            # concrete flags (four variants): keeps the merged return paths small
+            P + "add_day": OneOf([False, True]),
+            P + "advance_day_of_week": OneOf([False, True]),
             P + "time_of_day": LocalTimeG(),
         },
         inv=lambda o: V.fld(o, P + "day_of_month") != 0,
@@ -59,36 +62,106 @@ def rule(a):
 def _(c):
     c.ghost("cal", IsoStdCalG("cal")).arg("self", YearOffsetG()).arg("year", Int())
     c.setup = _setup
-    c.timeout_s = 120
+    c.timeout_s = 300
     c.max_paths = 20000
-    c.vc_chunks = 4
+    c.vc_chunks = 1
+    c.tiers = ("thorough",)  # four obligations need 20-120 s each (cvc5); the quick tier decides the property's own domain (the stored rules) below
 
     def in_range(a, d):
         return And(d >= CA.soy(a.cal.cid, a.cal.min_year), d <= CA.soy(a.cal.cid, a.cal.max_year + 1) - 1)
 
+    def fields(a):
+        o = a.self
+        return V.fld(o, P + "day_of_week"), V.fld(o, P + "advance_day_of_week"), V.fld(o, P + "add_day"), V.lt_nanos(V.fld(o, P + "time_of_day"))
+
+    def adj(a):
+        """the weekday adjustment as a function of the base day: 0 when no weekday is asked for or the base day already has
+        it, else the distance to the next (advance) / previous (retreat) day with that weekday"""
+        dow, adv, add, tod = fields(a)
+        wd = weekday(rule(a)[1])
+        diff = dow - wd
+        return ite(Or(dow == 0, diff == 0), 0, ite(diff > 0, ite(adv, diff, diff - 7), ite(adv, diff + 7, diff)))
+
+    # LEMMA (own obligation, pure arithmetic): base + adj has the requested weekday and lies within the week after / before base
+    def adj_lemma(a):
+        dow, adv, add, tod = fields(a)
+        base = rule(a)[1]
+        d = base + adj(a)
+        return Implies(dow != 0, And(weekday(d) == dow, Implies(adv, And(d >= base, d <= base + 6)), Implies(Not(adv), And(d <= base, d >= base - 6))))
+
+    c.lemma(adj_lemma)
+
     def post(a, r):
         valid, base = rule(a)
-        o = a.self
-        dow, adv, add = V.fld(o, P + "day_of_week"), V.fld(o, P + "advance_day_of_week"), V.fld(o, P + "add_day")
-        tod = V.lt_nanos(V.fld(o, P + "time_of_day"))
-        last_day = CA.soy(a.cal.cid, 10000) - 1
-        if V.isinst(r, "_LocalInstant") and not hasattr(r, "fields"):
-            pass
-        after_max = V.is_after_max(r, "_LocalInstant")
+        dow, adv, add, tod = fields(a)
         n = V.linst_ns(r)
-        # D: the day after the weekday adjustment (described, not computed): right weekday, within a week on the right side
-        d = ite(add, n // V.NPD - 1, n // V.NPD)
-        day_ok = And(
-            Implies(dow == 0, d == base),
-            Implies(dow != 0, And(weekday(d) == dow, Implies(adv, And(d >= base, d <= base + 6)), Implies(Not(adv), And(d <= base, d >= base - 6)))),
-        )
-        normal = And(Not(after_max), n % V.NPD == tod, day_ok)
+        d = base + adj(a)
+        normal = And(Not(V.is_after_max(r, "_LocalInstant")), n == (d + (1 if add else 0)) * V.NPD + tod)
         # 24:00 on 9999-12-31 has no representable next day: the 'after the end of time' marker
-        special = And(after_max, add, a.year == 9999)
-        return And(valid, Or(normal, special))
+        special = And(V.is_after_max(r, "_LocalInstant"), add, a.year == 9999)
+        return And(valid, Or(normal, special) if add else normal)
 
     c.returns(post)
     c.raises(ValueError, OverflowError, when=lambda a: Or(Not(rule(a)[0]), Not(in_range(a, rule(a)[1] - 7)), Not(in_range(a, rule(a)[1] + 8))))
 
 
 _ = (OneOf,)
+
+
+
+# ------------------------------------------------------------------------------------------------- the property's own domain: every stored rule, every year
+def _stored_rules():
+    """distinct yearly rules of both real database files (decoded by the independent decoder specs/nzd.py)"""
+    import os
+
+    from pyvc import loader
+    from specs import nzd
+
+    rules = set()
+    for path in (os.path.join(loader.REPO, "pyoda_time", "time_zones", "Tzdb.nzd"), os.path.join(loader.REPO, "tests", "test_data", "Tzdb2013bFromNodaTime1.1.nzd")):
+        if not os.path.exists(path):
+            continue
+        with open(path, "rb") as f:
+            dec = nzd.decode_file(f.read())
+        for z in dec["zones"].values():
+            if z.get("tail"):
+                rules.add(z["tail"]["std"][1:])
+                rules.add(z["tail"]["dst"][1:])
+    return sorted(rules)
+
+
+def _real_rule(t):
+    from pyoda_time import LocalTime
+    from pyoda_time.time_zones._transition_mode import _TransitionMode
+    from pyoda_time.time_zones._zone_year_offset import _ZoneYearOffset
+
+    mode, month, dom, dow, advance, add_day, ms = t
+    return _ZoneYearOffset._ctor(_TransitionMode(mode), month, dom, dow, advance, LocalTime.from_milliseconds_since_midnight(ms), add_day)
+
+
+def _ground():
+    out = []
+    for t in _stored_rules():
+        obj = _real_rule(t)
+        for y in range(1, 10000):
+            out.append({"self": obj, "year": y, "rule": t})
+    return out
+
+
+@contract(ZYO + "_get_occurrence_for_year", "C04", "C06", name="every yearly rule stored in the two database files x every year 1..9999: occurrence == independent calendar arithmetic (datetime.date)")
+def _(c):
+    from specs import nzd
+
+    c.arg("self", Int()).arg("year", Int())
+    c.ground = _ground
+    c.ground_chunks = 16
+    c.ground_interp_stride = 20011
+    c.allow_mutation = lambda obj, n: True
+
+    def post(a, r):
+        want = nzd.rule_local_ticks(("",) + tuple(a.rule), a.year)
+        if want == nzd.INF:
+            return not r._is_valid
+        return r._is_valid and r._time_since_local_epoch.to_nanoseconds() == want * 100
+
+    c.returns(post)
